@@ -320,6 +320,13 @@ class VM:
         except JSSyntaxError as e:
             # Raised by built-ins at run time (JSON.parse): a catchable SyntaxError
             self._handle_python_exception("SyntaxError", str(e))
+        except RecursionError:
+            # A built-in that walks a value recursively (join, toString, the
+            # conversions, JSON.stringify, flat ...) ran out of host stack on a
+            # deeply nested value: a catchable RangeError, not a host exception
+            self._handle_python_exception(
+                "RangeError", "Maximum call stack size exceeded"
+            )
         except _ThrowSignal as signal:
             # A script exception crossed a native frame: dispatch it here
             # (it keeps the location of the place that threw it)
